@@ -375,3 +375,34 @@ c = R.contract(
     modifies=STREAM_GHOST + ["self._lines", "items(self._content)"],
 )
 c.defaults = {"flags": None}
+
+# ---------------------------------------------------------------- C15: row accounting of section outputs
+# rows one content line occupies on a terminal of width w (the same expression as the code, over the reals)
+R.spec_fn(
+    "rows_of", [("f", "ref Formatter"), ("line", "str"), ("w", "int")],
+    "1 if w <= 0 else (math.ceil(len(fmt_remove(f, line).replace('\\t', '        ')) / w) "
+    "if math.ceil(len(fmt_remove(f, line).replace('\\t', '        ')) / w) != 0 else 1)",
+    "int",
+)
+# rows of a content list [line, "\n", line, "\n", ...]
+R.spec_fn(
+    "rows_content", [("c", "seq[str]"), ("f", "ref Formatter"), ("w", "int")],
+    "0 if len(c) < 2 else rows_content(c[:len(c) - 2], f, w) + rows_of(f, c[len(c) - 2], w)",
+    "int", recursive=True,
+)
+SEC = "self._lines == rows_content(seq(self._content), self._formatter, self._terminal.g_width)"
+R.abstractions[SEC_ADD := M_SEC + ":SectionOutput.add_content"] = [
+    ("'\\n'.join((' ' * self._indent + s for s in content.split('\\n')))", "str",
+     "indentation of every line of the new content; the row accounting below holds for whatever text results"),
+]
+c = R.contracts[SEC_ADD]
+c.assumed = False
+c.requires = ["[C15] " + SEC, "[C15] self._terminal.g_width >= 1"]
+c.ensures = ["[C15] " + SEC, "[C15] len(self._content) >= old(len(self._content))"]
+c.note = ""
+R.loop(
+    SEC_ADD, 0,
+    invariants=[SEC, "len(self._content) >= old(len(self._content))"],
+    modifies=["self._lines", "items(self._content)"],
+    fingerprint="line_content in content.split",
+)
